@@ -42,11 +42,29 @@ class EmdStub:
         return (c, {"u": u, "v": v}) if log else c
 
 
+LAYOUTS = {"F": "column-major (Fortran order, e.g. the transpose of a (K, n) array)",
+           "strided": "as a strided view (every other row and column of a larger array)"}
+
+
+def hand_in(P, layout):
+    """the same values in another memory layout: `for every input` includes arrays that are not C-contiguous (an in-place
+    shortcut that aliases the caller's or an intermediate array only shows with such a layout)"""
+    if layout == "F":
+        return np.asfortranarray(P.copy())
+    if layout == "strided":
+        big = np.empty((2 * P.shape[0], 2 * P.shape[1]), dtype=P.dtype)
+        big[...] = P[0, 0]
+        big[::2, ::2] = P
+        return big[::2, ::2]
+    return P.copy()
+
+
 class Evaluate(SxContract):
-    def __init__(self, cls, ovo, n, K, mode, structure="interior"):
+    def __init__(self, cls, ovo, n, K, mode, structure="interior", layout="C"):
         self.cls, self.ovo, self.n, self.K, self.mode, self.structure = cls, ovo, n, K, mode, structure
+        self.layout = layout
         self.fn = f"gemclus.gemini.{cls}.evaluate"
-        self.label = f"{cls}.evaluate[{'ovo' if ovo else 'ova'},n={n},K={K},{structure}]"
+        self.label = f"{cls}.evaluate[{'ovo' if ovo else 'ova'},n={n},K={K},{structure}{'' if layout == 'C' else ',predictions handed in ' + LAYOUTS[layout]}]"
         self.kind = spec.KIND[cls]
         self.needA = cls in ("MMDGEMINI", "WassersteinGEMINI")
 
@@ -103,11 +121,11 @@ class Evaluate(SxContract):
         P, A = inp["P"], inp["A"]
         out = {}
         self.stub.calls = []
-        out["score"] = self.g.evaluate(P.copy(), None if A is None else A.copy())
+        out["score"] = self.g.evaluate(hand_in(P, self.layout), None if A is None else A.copy())
         out["calls0"] = list(self.stub.calls)
         if self.mode == "C02":
             self.stub.calls = []
-            out["score_g"], out["grad"] = self.g.evaluate(P.copy(), None if A is None else A.copy(), return_grad=True)
+            out["score_g"], out["grad"] = self.g.evaluate(hand_in(P, self.layout), None if A is None else A.copy(), return_grad=True)
         if self.mode == "C01" and self.kind != "wasserstein":
             out["spec"] = spec.score(self.kind, self.ovo, tolist(P), None if A is None else tolist(A))
         return out
@@ -186,7 +204,7 @@ class Evaluate(SxContract):
         A = None if inp["A"] is None else sx.to_float(inp["A"], env)
         g = getattr(G, self.cls)(ovo=self.ovo, epsilon=min(max(float(env.get("eps", 1e-12)), 1e-300), 0.49))
         res = {}
-        s0 = float(np.asarray(g.evaluate(P.copy(), A)).item())
+        s0 = float(np.asarray(g.evaluate(hand_in(P, self.layout), A)).item())
         if self.mode == "C01":
             if self.kind == "wasserstein":
                 # independent reference for the optimal-transport cost: the transport LP solved by scipy's HiGHS (not POT);
@@ -199,7 +217,7 @@ class Evaluate(SxContract):
             res["score==spec"] = (close(s0, sp), {"P": P.tolist(), "A": None if A is None else A.tolist(),
                                                   "code": s0, "spec": sp})
             return res
-        s1, gr = g.evaluate(P.copy(), A, return_grad=True)
+        s1, gr = g.evaluate(hand_in(P, self.layout), A, return_grad=True)
         s1 = float(np.asarray(s1).item())
         res["score(return_grad)==score"] = (close(s0, s1), {"P": P.tolist(), "with": s1, "without": s0})
         gr = np.asarray(gr, dtype=float)
@@ -215,7 +233,7 @@ class Evaluate(SxContract):
             Q_ = P.copy()
             Q_[i, k] += t
             Q_[i, K - 1] -= t
-            return float(np.asarray(g.evaluate(Q_, A)).item())
+            return float(np.asarray(g.evaluate(hand_in(Q_, self.layout), A)).item())
         rows = list(range(1, self.n) if self.structure == "clipped" else range(self.n))
         if len(rows) > 40:       # large shapes of the size ladder: a spread of 12 rows, first and last included
             rows = sorted({rows[int(j)] for j in np.linspace(0, len(rows) - 1, 12)})
@@ -259,5 +277,5 @@ def wasserstein_reference(P, A, ovo):
     return float(sum(2 * pi[a] * pi[b] * W(q[:, a], q[:, b]) for a in range(K) for b in range(a + 1, K)))
 
 
-def task(cls, ovo, n, K, mode, structure="interior", seed=0):
-    return run_sx(Evaluate(cls, ovo, n, K, mode, structure), seed=seed)
+def task(cls, ovo, n, K, mode, structure="interior", seed=0, layout="C"):
+    return run_sx(Evaluate(cls, ovo, n, K, mode, structure, layout), seed=seed)
